@@ -2,32 +2,7 @@
 """Regenerates MANIFEST.json from the table below (one entry per claimed property)."""
 import json, subprocess
 
-CLAIMS = {
- "C02": dict(
-   text="Lean theorems over a call-stream model of sequential pipelines (each Go closure = a function on the list of results of successive calls): for every operator tree without a failing non-last Join/Chain operand the values equal the functional specification (filter/map/concat/identity/dedupe-first/enumerate/flatten, truncated at the first non-skip user error), the specification is always a prefix of what the code yields, a skip removes exactly one element, an error truncates, iterators are sticky after their first error, Count/JSON/Reduce agree with the specification; the full statement is refuted by kernel-checked witnesses for Join and Chain (open finding). Tied by a differential run over random operator trees with injected skip/error/EOF/abort positions, plus the specification itself as independent oracle",
-   note="trusted: Lean kernel; hand-written FunModel/Stream.lean; goroutine-backed identity stages modelled by their sequential value semantics (C01/C04 cover their concurrency); context never cancelled; open finding: Join/Chain continue after operand failure",
-   ref="DESIGN.md §5 C02"),
- "C12": dict(
-   text="Lean theorems (structural induction over unbounded error trees) that Stack.Push/Join/Resolve/Unwind/ParsePanic/Wrap/Collector keep exactly the supplied constituents, each once, most recent first, and that errors.Is/As on the result agree with the constituents; the hand-written model is tied to ers/erc by a differential run on random error trees built from real Go error values, with an independent property oracle on every implementation observation",
-   note="trusted: Lean kernel; hand-written model FunModel/Err.lean (validated against ers/erc every run, not generated); errors.Is/As of the Go stdlib modelled; Collector atomicity assumed from its mutex (C13)",
-   ref="DESIGN.md §5 C12"),
- "C19": dict(
-   text="Lean theorems for every (min,max,sigfigs) shape with max<2^62 and every multiset of in-range values: recording succeeds, counts conserved, equivalence ranges exact and within the promised precision, index monotone, ValueAtQuantile = highestEquivalent(order statistic), Min/Max bracket, Export/Import and Merge-into-empty are identities, iterator invariant holds, bitLen loop = floor(log2)+1; model tied to dt/hdrhist by a differential run over boundary-biased shapes and value multisets plus an independent oracle",
-   note="trusted: Lean kernel; hand-written model FunModel/Hdr.lean (Nat arithmetic, overflow excluded by max<2^62); New's two float log2 computations modelled (5-row table, Nat.log2 for min<2^48); the float quantile->rank expression is evaluated by the generator in IEEE doubles",
-   ref="DESIGN.md §5 C19"),
- "C16": dict(
-   text="Lean theorems over pointer-level heap models of dt.List (58 theorems) and dt.Stack: an invariant WF (circular doubly linked chain with sentinel / singly linked chain with bottom sentinel, ownership, Len) is preserved by every public operation for any number of containers and unbounded sizes, each operation equals the same operation on a plain sequence (ghost list), rejected operations leave the heap unchanged, forward walk = reversed backward walk = ghost sequence, In(l) iff member; reachability lift; kernel-checked witnesses that Swap and head-Item.Remove break the invariant (open findings). Tied to the code by a differential run of operation sequences (handles drawn from everything ever returned) printing both walks, Len and every handle after every step, plus an independent sequence-level oracle",
-   note="trusted: Lean kernel; hand-written pointer models FunModel/Dll.lean, FunModel/Sll.lean (mirrors of dt/list.go, dt/stack.go, validated every run); JSON text of ints modelled; Extend(l,l) and methods on nil receivers excluded; open findings: Element.Swap, Item.Remove on the head item",
-   ref="DESIGN.md §5 C16"),
- "C17": dict(
-   text="Lean theorems for every list and every strict weak ordering: SortMerge and SortQuick return a sorted permutation, both are stable and hence equal, IsSorted is true exactly when no adjacent pair is out of order, Heap pops every pushed value once in non-decreasing order (FIFO among equals); the three comparators used by the check are proved strict weak orderings. Sequence-level algorithms (split/merge/mergeSort as the code recurses) are cross-checked against the pointer-level model on every sort the driver runs, and the pointer-level model against the implementation by the differential run (sorted lists keep being used afterwards)",
-   note="trusted: Lean kernel; FunModel/SortSeq.lean hand-written (tie to the pointer model is tested, not proved); sort.SliceStable trusted to be a stable sort; comparators strict weak",
-   ref="DESIGN.md §5 C17"),
- "C18": dict(
-   text="Lean theorems over a model of dt.Set (map + optional order list): invariant preserved by Add/Delete/Populate/Sort*, Check/Len/AddCheck/DeleteCheck agree with a duplicate-free reference list, re-adding keeps the position, iteration order = insertion order (sorted after Sort, independent of map order and of the sorter), sort-then-delete removes exactly that value, Equal iff same members (same order when ordered), JSON round trip; reachability lift. Tied by a differential run over the value domain {0..5}, ordered/unordered x synchronized, with an independent reference-set oracle",
-   note="trusted: Lean kernel; hand-written FunModel/SetModel.lean; Go map order unspecified (parameter of the model, observations of unordered sets compared sorted); the order list is modelled at sequence level (C16); concurrent use of a synchronized set is covered only through its lock (C13)",
-   ref="DESIGN.md §5 C18"),
-}
+CLAIMS = json.load(open('/verif/claims.json'))
 ALL = [f"C{i:02d}" for i in range(1, 21)]
 PENDING = "not yet built in this revision (work in progress; see DESIGN.md §10 build order)"
 
